@@ -116,6 +116,15 @@ func fmp4Codec(t TrackDef) fmp4.Codec {
 		return &fmp4.CodecMPEG4Audio{Config: mpeg4audio.Config{Type: 2, SampleRate: r, ChannelCount: 2}}
 	case "opus":
 		return &fmp4.CodecOpus{ChannelCount: 2}
+	// codecs that fMP4 can carry and gohlslib has no decoder for (C13)
+	case "ac3":
+		return &fmp4.CodecAC3{SampleRate: 48000, ChannelCount: 2, Fscod: 0, Bsid: 8, Bsmod: 0, Acmod: 2, BitRateCode: 7}
+	case "mjpeg":
+		return &fmp4.CodecMJPEG{Width: 640, Height: 480}
+	case "lpcm":
+		return &fmp4.CodecLPCM{BitDepth: 16, SampleRate: 48000, ChannelCount: 2}
+	case "mp1a":
+		return &fmp4.CodecMPEG1Audio{SampleRate: 48000, ChannelCount: 2}
 	}
 	return nil
 }
